@@ -107,71 +107,579 @@ theorem keyRelease_frame (o : Nat) (w : World) :
   · simp
   · exact keyCloseRaw_frame o _
 
-def writeHolds (h : Nat → Int) (kc : KeyCache) (m' : KeyMeta) (e : CEntry) : Nat → Int :=
-  match assocGet kc.ents m' with
-  | some old => if old.obj = e.obj then h else hadd h e.obj (-1)
-  | none => hadd h e.obj (-1)
 
-theorem cacheWriteTail_spec (T : CTab) (raw : Raw) (h : Nat → Int) (c : Nat) (m' : KeyMeta) (e : CEntry) (kc1 : KeyCache)
-    (hd : T.dead c = false) (hmode : kc1.mode = .simple) (hpos : ∀ o, 0 ≤ h o) :
-    Spec (fun w => RIc T raw h w ∧ w.caches[c]? = some kc1 ∧ ∃ k, w.keys[e.obj]? = some k ∧ k.created = m'.created)
-      (cacheWriteTail c m' e)
-      (fun _ w' => RIc T raw (writeHolds h kc1 m' e) w' ∧ ∃ kc', w'.caches[c]? = some kc' ∧ assocGet kc'.ents m' = some e)
-      (fun _ => False) := by
-  apply Spec.intro_ok
-  rintro w ⟨hi, hkc, k, hk, hkcr⟩
-  have hgd : w.caches.getD c default = kc1 := getD_eq_of_getElem? hkc
-  have hnb : (w.caches.getD c default).mode ≠ .bounded := by rw [hgd, hmode]; decide
-  -- the final `cacheSet`, from any world that still has `kc1` at `c`
-  have fin : ∀ (w2 : World) (h2 : Nat → Int), RIc T raw h2 w2 → w2.caches[c]? = some kc1 →
-      (∃ k, w2.keys[e.obj]? = some k ∧ k.created = m'.created) →
-      (∀ o, writeHolds h kc1 m' e o + ((objsOf { kc1 with ents := assocSet kc1.ents m' e }).count o : Int) =
-        h2 o + ((objsOf kc1).count o : Int)) →
-      ∃ a w', cacheSet c m' e w2 = (.ok a, w') ∧
-        RIc T raw (writeHolds h kc1 m' e) w' ∧ ∃ kc', w'.caches[c]? = some kc' ∧ assocGet kc'.ents m' = some e := by
-    intro w2 h2 hi2 hkc2 hk2 hh
+/-! ### bounded caches: the slot table, `Get`, `Set` and `Close` through the E2 cache model -/
+
+theorem slotOf_some_iff {kc : KeyCache} (hn : kc.slots.Nodup) (m : KeyMeta) (s : Nat) :
+    slotOf kc m = some s ↔ kc.slots[s]? = some m := by
+  unfold slotOf
+  simp only
+  constructor
+  · intro h
+    split at h
+    · rename_i hlt
+      cases h
+      rw [List.getElem?_eq_getElem hlt]
+      have := List.findIdx_getElem (w := hlt)
+      simp at this
+      simp [this]
+    · cases h
+  · intro h
+    have hlt := getElem?_lt h
+    have hm : m ∈ kc.slots := List.mem_of_getElem? h
+    have hi : kc.slots.findIdx (· = m) < kc.slots.length := by
+      apply List.findIdx_lt_length_of_exists
+      exact ⟨m, hm, by simp⟩
+    have hg := List.findIdx_getElem (w := hi)
+    simp at hg
+    have e : kc.slots.findIdx (· = m) = s := by
+      have h1 : kc.slots[kc.slots.findIdx (· = m)] = kc.slots[s] := by
+        rw [hg]; rw [List.getElem?_eq_getElem hlt] at h; simp at h; exact h.symm
+      exact (List.getElem_inj hn).1 h1
+    rw [if_pos hi, e]
+
+theorem slotOf_none_iff {kc : KeyCache} (m : KeyMeta) : slotOf kc m = none ↔ m ∉ kc.slots := by
+  unfold slotOf
+  simp only
+  constructor
+  · intro h hm
+    have hi : kc.slots.findIdx (· = m) < kc.slots.length := by
+      apply List.findIdx_lt_length_of_exists
+      exact ⟨m, hm, by simp⟩
+    simp [hi] at h
+  · intro h
+    have : ¬ kc.slots.findIdx (· = m) < kc.slots.length := by
+      intro hi
+      have hg := List.findIdx_getElem (w := hi)
+      simp at hg
+      exact h (hg ▸ List.getElem_mem hi)
+    simp [this]
+
+
+/-- a cache update that only touches the eviction policy's bookkeeping (a `Get` hit). -/
+theorem RIc.updPol {T : CTab} {raw : Raw} {h : Nat → Int} {w : World} (hi : RIc T raw h w)
+    (c : Nat) (kc : KeyCache) (p : Cache.Cache) (hkc : w.caches[c]? = some kc) (hd : T.dead c = false)
+    (hb : kc.mode = .bounded → BOK { kc with pol := p }) :
+    RIc T raw h { w with caches := setAt w.caches c fun _ => { kc with pol := p } } := by
+  have hok := hi.ents c kc hkc hd
+  exact hi.updCache c kc { kc with pol := p } hkc hd rfl
+    ⟨hok.entKey, hok.nodup, hok.latest, hok.nev, hb⟩ (fun o => rfl) rfl rfl rfl
+
+/-- `c.keys.Get(id)` for every cache mode: the invariant is kept, the entries of the cache are
+untouched, and a hit returns the entry stored under that key. -/
+theorem cacheGet_eff {T : CTab} {raw : Raw} {h : Nat → Int} {w : World} {c : Nat} {kc : KeyCache} (m : KeyMeta)
+    (hi : RIc T raw h w) (hkc : w.caches[c]? = some kc) (hd : T.dead c = false) :
+    ∃ r w' kc', cacheGet c m w = (.ok r, w') ∧ RIc T raw h w' ∧ w'.keys = w.keys ∧
+      w'.caches[c]? = some kc' ∧ kc'.ents = kc.ents ∧ kc'.mode = kc.mode ∧ kc'.latest = kc.latest ∧
+      (∀ e, r = some e → kc.mode ≠ .never ∧ assocGet kc.ents m = some e) := by
+  have hgd : w.caches.getD c default = kc := getD_eq_of_getElem? hkc
+  simp only [cacheGet, bind_run, getCache, hgd]
+  cases hm : kc.mode with
+  | never => exact ⟨none, w, kc, rfl, hi, rfl, hkc, rfl, hm, rfl, fun e he => by cases he⟩
+  | simple => exact ⟨_, w, kc, rfl, hi, rfl, hkc, rfl, hm, rfl, fun e he => ⟨by simp, he⟩⟩
+  | bounded =>
+    simp only []
+    cases hs : slotOf kc m with
+    | none => exact ⟨none, w, kc, rfl, hi, rfl, hkc, rfl, hm, rfl, fun e he => by cases he⟩
+    | some s =>
+      simp only [setCache, modify_run, bind_run]
+      have hbok := (hi.ents c kc hkc hd).bnd hm
+      have heff := Cache.step_get_eff hbok.inv hbok.live hbok.noexp s (fun _ => false)
+      have hinv := (Cache.step_inv hbok.inv (.get s) (fun _ => false)).1
+      have hi' := hi.updPol c kc (Cache.step kc.pol (.get s) fun _ => false).cache hkc hd (fun _ =>
+        ⟨hinv, heff.2.2.1, heff.2.2.2, hbok.slots, by show ∀ s, s ∈ Cache.keysOf _ → _; rw [heff.2.1]; exact hbok.valid,
+          by show ∀ m : KeyMeta, _ ↔ ∃ s, _ ∧ s ∈ Cache.keysOf _; rw [heff.2.1]; exact hbok.keys⟩)
+      have hkc' : (setAt w.caches c fun _ => { kc with pol := (Cache.step kc.pol (.get s) fun _ => false).cache })[c]? =
+          some { kc with pol := (Cache.step kc.pol (.get s) fun _ => false).cache } := by
+        rw [setAt_getElem?]; simp [hkc]
+      simp only [hm] at hi' hkc'
+      cases hres : (Cache.step kc.pol (.get s) fun _ => false).res with
+      | val v => exact ⟨_, _, _, rfl, hi', rfl, hkc', rfl, rfl, rfl, fun e he => ⟨by simp, he⟩⟩
+      | _ => exact ⟨none, _, _, rfl, hi', rfl, hkc', rfl, rfl, rfl, fun e he => by cases he⟩
+
+
+section assocDel
+variable {κ α : Type} [DecidableEq κ]
+
+theorem mem_assocDel {l : List (κ × α)} {k k' : κ} {v : α} : (k', v) ∈ assocDel l k ↔ (k', v) ∈ l ∧ k' ≠ k := by
+  unfold assocDel; simp [List.mem_filter]
+
+theorem assocDel_keys_sublist (l : List (κ × α)) (k : κ) : ((assocDel l k).map (·.1)).Sublist (l.map (·.1)) := by
+  unfold assocDel; exact (List.filter_sublist).map _
+
+theorem mem_keys_assocDel {l : List (κ × α)} {k k' : κ} : k' ∈ (assocDel l k).map (·.1) ↔ k' ∈ l.map (·.1) ∧ k' ≠ k := by
+  simp only [List.mem_map]
+  constructor
+  · rintro ⟨⟨a, b⟩, h, rfl⟩
+    have := mem_assocDel.1 h
+    exact ⟨⟨(a, b), this.1, rfl⟩, this.2⟩
+  · rintro ⟨⟨⟨a, b⟩, h, rfl⟩, hne⟩
+    exact ⟨(a, b), mem_assocDel.2 ⟨h, hne⟩, rfl⟩
+
+theorem assocDel_of_none {l : List (κ × α)} {k : κ} (h : assocGet l k = none) : assocDel l k = l := by
+  unfold assocDel
+  apply List.filter_eq_self.2
+  intro p hp
+  have := assocGet_none_iff.1 h
+  simp only [ne_eq, decide_eq_true_eq]
+  intro e; exact this (e ▸ List.mem_map.2 ⟨p, hp, rfl⟩)
+
+theorem count_assocDel_of_some {l : List (κ × α)} {k : κ} {old : α} (g : α → Nat)
+    (hn : (l.map (·.1)).Nodup) (h : assocGet l k = some old) (x : Nat) :
+    ((assocDel l k).map (fun p => g p.2)).count x + (if g old = x then 1 else 0) = (l.map (fun p => g p.2)).count x := by
+  induction l with
+  | nil => simp [assocGet_nil] at h
+  | cons p t ih =>
+    rw [assocGet_cons] at h
+    simp only [List.map_cons, List.nodup_cons] at hn
+    by_cases hp : p.1 = k
+    · simp only [hp, if_true] at h
+      cases h
+      have hk : k ∉ t.map (·.1) := hp ▸ hn.1
+      have htail : assocDel t k = t := assocDel_of_none (assocGet_none_iff.2 hk)
+      have : assocDel (p :: t) k = t := by
+        rw [← htail]
+        unfold assocDel
+        simp [List.filter_cons, hp]
+      rw [this]
+      simp only [List.map_cons, List.count_cons, beq_iff_eq]
+    · simp only [hp, if_false] at h
+      have := ih hn.2 h
+      have e : assocDel (p :: t) k = p :: assocDel t k := by
+        unfold assocDel; simp [List.filter_cons, hp]
+      rw [e]
+      simp only [List.map_cons, List.count_cons, beq_iff_eq]
+      omega
+
+theorem assocGet_assocDel_ne {l : List (κ × α)} {k k' : κ} (hne : k' ≠ k) : assocGet (assocDel l k) k' = assocGet l k' := by
+  induction l with
+  | nil => rfl
+  | cons p t ih =>
+    by_cases hp : p.1 = k
+    · have e : assocDel (p :: t) k = assocDel t k := by unfold assocDel; simp [List.filter_cons, hp]
+      rw [e, ih, assocGet_cons]
+      have : p.1 ≠ k' := fun e' => hne (e'.symm.trans hp)
+      simp [this]
+    · have e : assocDel (p :: t) k = p :: assocDel t k := by unfold assocDel; simp [List.filter_cons, hp]
+      rw [e, assocGet_cons, assocGet_cons, ih]
+end assocDel
+
+
+theorem mem_keys_assocSet {κ α : Type} [DecidableEq κ] {l : List (κ × α)} {k k' : κ} {v : α} :
+    k' ∈ (assocSet l k v).map (·.1) ↔ k' = k ∨ k' ∈ l.map (·.1) := by
+  simp only [List.mem_map]
+  constructor
+  · rintro ⟨⟨a, b⟩, h, rfl⟩
+    rcases mem_assocSet h with ⟨h1, _⟩ | ⟨h1, _⟩
+    · exact Or.inl h1
+    · exact Or.inr ⟨(a, b), h1, rfl⟩
+  · rintro (rfl | ⟨⟨a, b⟩, h, rfl⟩)
+    · exact ⟨(k', v), mem_assocSet_self l k' v, rfl⟩
+    · by_cases e : a = k
+      · subst e; exact ⟨(a, v), mem_assocSet_self l a v, rfl⟩
+      · cases hg : assocGet l k with
+        | none => rw [assocSet_of_none v hg]; exact ⟨(a, b), List.mem_append_left _ h, rfl⟩
+        | some old =>
+          rw [assocSet_of_some v hg]
+          exact ⟨(a, b), List.mem_map.2 ⟨(a, b), h, by simp [e]⟩, rfl⟩
+
+/-- the bounded `Set`, with the slot table `slotsA` (the old one, or the old one with the new key
+appended) and the slot `s` of the key made explicit. -/
+theorem cacheSet_core {T : CTab} {raw : Raw} {h2 : Nat → Int} {w2 : World} {c : Nat} {m' : KeyMeta} {e : CEntry} {kc1 : KeyCache}
+    (hi2 : RIc T raw h2 w2) (hkc2 : w2.caches[c]? = some kc1) (hd : T.dead c = false) (hm : kc1.mode = .bounded)
+    (hk2 : ∃ k, w2.keys[e.obj]? = some k ∧ k.created = m'.created) (hpos : assocGet kc1.ents m' = none → ∀ o, 0 ≤ h2 o)
+    (slotsA : List KeyMeta) (s : Nat) (hA : slotsA = kc1.slots ∨ slotsA = kc1.slots ++ [m'])
+    (hs1 : slotsA[s]? = some m') (hsN : slotsA.Nodup)
+    (hsm : s ∈ Cache.keysOf kc1.pol.items ↔ m' ∈ kc1.ents.map (·.1)) :
+    ∃ w' kcN, releaseAll
+        (List.filterMap (fun em => Option.map (fun x => x.obj) (assocGet kc1.ents em))
+          (List.filterMap (fun x => slotsA[x.fst]?) (Cache.step kc1.pol (Cache.Op.set s 0) fun x => false).cbs))
+        { w2 with caches := setAt w2.caches c fun _ =>
+          { mode := kc1.mode,
+            ents := assocSet (List.foldl (fun acc em => assocDel acc em) kc1.ents
+              (List.filterMap (fun x => slotsA[x.fst]?) (Cache.step kc1.pol (Cache.Op.set s 0) fun x => false).cbs)) m' e,
+            latest := kc1.latest, slots := slotsA,
+            pol := (Cache.step kc1.pol (Cache.Op.set s 0) fun x => false).cache } } = (.ok (), w') ∧
+      RIc T raw (fun o => h2 o + ((objsOf kc1).count o : Int) -
+        ((objsOf { kc1 with ents := assocSet kc1.ents m' e }).count o : Int)) w' ∧
+      w'.caches[c]? = some kcN ∧ assocGet kcN.ents m' = some e ∧ kcN.mode = kc1.mode := by
+  have hok := hi2.ents c kc1 hkc2 hd
+  have hb := hok.bnd hm
+  have eff := Cache.step_set_eff hb.inv hb.live hb.noexp s 0 (fun _ => false)
+  have hinv' := (Cache.step_inv hb.inv (.set s 0) (fun _ => false)).1
+  have hslen : kc1.slots.length ≤ slotsA.length := by rcases hA with e | e <;> rw [e] <;> simp
+  have hsold : ∀ s', s' < kc1.slots.length → slotsA[s']? = kc1.slots[s']? := by
+    intro s' hlt
+    rcases hA with e | e
+    · rw [e]
+    · rw [e, List.getElem?_append_left hlt]
+  obtain ⟨ke, hke, hkec⟩ := hk2
+  -- the parts of `CacheOK` that do not depend on the case
+  have entKeyOf : ∀ (l : List (KeyMeta × CEntry)), (∀ m x, (m, x) ∈ l → (m, x) ∈ kc1.ents) →
+      ∀ m x, (m, x) ∈ assocSet l m' e → ∃ k, w2.keys[x.obj]? = some k ∧ k.created = m.created := by
+    intro l hl m x hmx
+    rcases mem_assocSet hmx with ⟨rfl, rfl⟩ | ⟨hmx', _⟩
+    · exact ⟨ke, hke, hkec⟩
+    · exact hok.entKey m x (hl m x hmx')
+  rcases eff.2.2 with ⟨hcbs, hkeys⟩ | ⟨it, hit, hne, hsn, hcbs, hkeys⟩
+  · -- no eviction
+    rw [hcbs]
+    simp only [List.filterMap_nil, List.foldl_nil]
+    let kcN : KeyCache := { mode := kc1.mode, ents := assocSet kc1.ents m' e, latest := kc1.latest, slots := slotsA, pol := (Cache.step kc1.pol (Cache.Op.set s 0) fun x => false).cache }
+    refine ⟨_, kcN, rfl, ?_, by show (setAt w2.caches c _)[c]? = _; rw [setAt_getElem?]; simp [hkc2, kcN], assocGet_assocSet_self _ _ _, rfl⟩
+    refine hi2.updCache c kc1 kcN hkc2 hd rfl ?_ (fun o => by show _ + ((objsOf kcN).count o : Int) = _; simp only [objsOf, kcN]; omega) rfl rfl rfl
+    refine ⟨entKeyOf _ (fun _ _ h => h), assocSet_keys_nodup _ _ hok.nodup, hok.latest, fun hn => (by rw [hm] at hn; cases hn), fun _ => ?_⟩
+    refine ⟨hinv', eff.1, eff.2.1, hsN, ?_, ?_⟩
+    · intro s' hs'
+      rcases (hkeys s').1 hs' with rfl | h'
+      · exact getElem?_lt hs1
+      · exact Nat.lt_of_lt_of_le (hb.valid s' h') hslen
+    · intro m
+      show m ∈ (assocSet kc1.ents m' e).map (·.1) ↔ ∃ s', slotsA[s']? = some m ∧ s' ∈ Cache.keysOf _
+      rw [mem_keys_assocSet]
+      constructor
+      · rintro (rfl | hmm)
+        · exact ⟨s, hs1, (hkeys s).2 (Or.inl rfl)⟩
+        · obtain ⟨s', h1, h2⟩ := (hb.keys m).1 hmm
+          exact ⟨s', by rw [hsold s' (getElem?_lt h1)]; exact h1, (hkeys s').2 (Or.inr h2)⟩
+      · rintro ⟨s', h1, h2⟩
+        rcases (hkeys s').1 h2 with rfl | h'
+        · rw [hs1] at h1; cases h1; exact Or.inl rfl
+        · rw [hsold s' (hb.valid s' h')] at h1
+          exact Or.inr ((hb.keys m).2 ⟨s', h1, h'⟩)
+  · -- one entry is evicted: its key is released
+    have hsvlt := hb.valid it.key hit
+    have hmv : slotsA[it.key]? = some kc1.slots[it.key] := by rw [hsold _ hsvlt]; exact List.getElem?_eq_getElem hsvlt
+    have hmvents : kc1.slots[it.key] ∈ kc1.ents.map (·.1) := (hb.keys _).2 ⟨it.key, List.getElem?_eq_getElem hsvlt, hit⟩
+    have hm'ents : m' ∉ kc1.ents.map (·.1) := fun h => hsn (hsm.2 h)
+    have hmvne : kc1.slots[it.key] ≠ m' := fun e' => hm'ents (e' ▸ hmvents)
+    obtain ⟨oldv, holdv⟩ : ∃ oldv, assocGet kc1.ents kc1.slots[it.key] = some oldv := by
+      cases hg : assocGet kc1.ents kc1.slots[it.key] with
+      | none => exact absurd hmvents (assocGet_none_iff.1 hg)
+      | some x => exact ⟨x, rfl⟩
+    rw [hcbs]
+    simp only [List.filterMap_cons, List.filterMap_nil, hmv, List.foldl_cons, List.foldl_nil, holdv, Option.map_some]
+    let entsN := assocSet (assocDel kc1.ents kc1.slots[it.key]) m' e
+    let kcN : KeyCache := { mode := kc1.mode, ents := entsN, latest := kc1.latest, slots := slotsA, pol := (Cache.step kc1.pol (Cache.Op.set s 0) fun x => false).cache }
+    let w1 : World := { w2 with caches := setAt w2.caches c fun _ => kcN }
+    have hnoneN : assocGet (assocDel kc1.ents kc1.slots[it.key]) m' = none := by
+      rw [assocGet_assocDel_ne (fun e' => hmvne e'.symm)]; exact assocGet_none_iff.2 hm'ents
+    have hnone1 : assocGet kc1.ents m' = none := assocGet_none_iff.2 hm'ents
+    -- accounting
+    let h1 : Nat → Int := fun o => h2 o - ((if e.obj = o then 1 else 0 : Nat) : Int) + ((if oldv.obj = o then 1 else 0 : Nat) : Int)
+    have hcN : ∀ o, (objsOf kcN).count o + (if oldv.obj = o then 1 else 0) = (objsOf kc1).count o + (if e.obj = o then 1 else 0) := by
+      intro o
+      have a1 := count_assocSet_of_none e CEntry.obj hnoneN o
+      have a2 := count_assocDel_of_some CEntry.obj hok.nodup holdv o
+      show ((entsN.map fun p => p.2.obj).count o) + _ = ((kc1.ents.map fun p => p.2.obj).count o) + _
+      simp only [entsN]
+      omega
+    have hkcN : w1.caches[c]? = some kcN := by show (setAt w2.caches c _)[c]? = _; rw [setAt_getElem?]; simp [hkc2]
+    have hi1 : RIc T raw h1 w1 := by
+      refine hi2.updCache c kc1 kcN hkc2 hd rfl ?_ (fun o => by have := hcN o; simp only [h1]; omega) rfl rfl rfl
+      refine ⟨entKeyOf _ (fun _ _ h => (mem_assocDel.1 h).1), assocSet_keys_nodup _ _ (List.Nodup.sublist (assocDel_keys_sublist _ _) hok.nodup),
+        hok.latest, fun hn => (by rw [hm] at hn; cases hn), fun _ => ?_⟩
+      refine ⟨hinv', eff.1, eff.2.1, hsN, ?_, ?_⟩
+      · intro s' hs'
+        rcases (hkeys s').1 hs' with rfl | h'
+        · exact getElem?_lt hs1
+        · exact Nat.lt_of_lt_of_le (hb.valid s' h'.1) hslen
+      · intro m
+        show m ∈ entsN.map (·.1) ↔ ∃ s', slotsA[s']? = some m ∧ s' ∈ Cache.keysOf _
+        simp only [entsN]
+        rw [mem_keys_assocSet, mem_keys_assocDel]
+        constructor
+        · rintro (rfl | ⟨hmm, hmne⟩)
+          · exact ⟨s, hs1, (hkeys s).2 (Or.inl rfl)⟩
+          · obtain ⟨s', q1, q2⟩ := (hb.keys m).1 hmm
+            refine ⟨s', by rw [hsold s' (getElem?_lt q1)]; exact q1, (hkeys s').2 (Or.inr ⟨q2, ?_⟩)⟩
+            intro e'; subst e'
+            rw [List.getElem?_eq_getElem hsvlt] at q1; cases q1; exact hmne rfl
+        · rintro ⟨s', q1, q2⟩
+          rcases (hkeys s').1 q2 with rfl | ⟨h', hne'⟩
+          · rw [hs1] at q1; cases q1; exact Or.inl rfl
+          · have hlt' := hb.valid s' h'
+            rw [hsold s' hlt'] at q1
+            refine Or.inr ⟨(hb.keys m).2 ⟨s', q1, h'⟩, ?_⟩
+            intro e'; subst e'
+            rw [List.getElem?_eq_getElem hlt'] at q1
+            simp only [Option.some.injEq] at q1
+            exact hne' ((List.getElem_inj hb.slots).1 q1)
+    -- the release of the evicted key
+    have hcnt : 1 ≤ cntOf T h1 w1 oldv.obj := by
+      unfold cntOf
+      simp only [h1, if_true]
+      have := hpos hnone1 oldv.obj
+      by_cases he : e.obj = oldv.obj
+      · have : 0 < entCount T.dead w1.caches oldv.obj :=
+          entCount_pos_iff.2 ⟨c, kcN, hkcN, hd, List.mem_map.2 ⟨(m', e), mem_assocSet_self _ _ _, he⟩⟩
+        simp only [he, if_true]; omega
+      · simp only [he, if_false]; omega
+    have hrel := keyRelease_specc T raw h1 oldv.obj w1 ⟨hi1, hcnt⟩
+    have hfr := keyRelease_frame oldv.obj w1
+    simp only [releaseAll, bind_run]
+    cases hr : keyRelease oldv.obj w1 with
+    | mk r w' =>
+      rw [hr] at hrel hfr
+      simp only at hfr
+      rw [hfr.1] at hrel
+      simp only [hfr.1, pure_run]
+      refine ⟨w', kcN, rfl, ?_, by rw [hfr.2]; exact hkcN, assocGet_assocSet_self _ _ _, rfl⟩
+      refine RIc.congr_h hrel ?_
+      intro o
+      have a1 := count_assocSet_of_none e CEntry.obj hnone1 o
+      show hadd h1 oldv.obj (-1) o = h2 o + ((kc1.ents.map fun p => p.2.obj).count o : Int) -
+        (((assocSet kc1.ents m' e).map fun p => p.2.obj).count o : Int)
+      simp only [hadd, h1]
+      by_cases q : o = oldv.obj
+      · subst q; simp only [if_true]; omega
+      · have : ¬ oldv.obj = o := fun e' => q e'.symm
+        simp only [q, this, if_false]; omega
+
+theorem cacheSet_eff_bounded {T : CTab} {raw : Raw} {h2 : Nat → Int} {w2 : World} {c : Nat} {m' : KeyMeta} {e : CEntry} {kc1 : KeyCache}
+    (hi2 : RIc T raw h2 w2) (hkc2 : w2.caches[c]? = some kc1) (hd : T.dead c = false) (hm : kc1.mode = .bounded)
+    (hk2 : ∃ k, w2.keys[e.obj]? = some k ∧ k.created = m'.created) (hpos : assocGet kc1.ents m' = none → ∀ o, 0 ≤ h2 o) :
+    ∃ a w', cacheSet c m' e w2 = (.ok a, w') ∧
+      RIc T raw (fun o => h2 o + ((objsOf kc1).count o : Int) -
+        ((objsOf { kc1 with ents := assocSet kc1.ents m' e }).count o : Int)) w' ∧
+      ∃ kc', w'.caches[c]? = some kc' ∧ assocGet kc'.ents m' = some e ∧ kc'.mode = kc1.mode := by
+  have hgd : w2.caches.getD c default = kc1 := getD_eq_of_getElem? hkc2
+  have hok := hi2.ents c kc1 hkc2 hd
+  have hb := hok.bnd hm
+  simp only [cacheSet, bind_run, getCache, hgd, hm]
+  cases hs : slotOf kc1 m' with
+  | some s =>
+    simp only [setCache, modify_run]
+    have hs1 := (slotOf_some_iff hb.slots m' s).1 hs
+    have hsm : s ∈ Cache.keysOf kc1.pol.items ↔ m' ∈ kc1.ents.map (·.1) := by
+      rw [hb.keys m']
+      constructor
+      · intro h; exact ⟨s, hs1, h⟩
+      · rintro ⟨s', q1, q2⟩
+        have hlt := getElem?_lt q1
+        have hlt1 := getElem?_lt hs1
+        rw [List.getElem?_eq_getElem hlt] at q1
+        rw [List.getElem?_eq_getElem hlt1] at hs1
+        simp only [Option.some.injEq] at q1 hs1
+        have : s' = s := (List.getElem_inj hb.slots).1 (q1.trans hs1.symm)
+        exact this ▸ q2
+    obtain ⟨w', kcN, h1, h2', h3, h4, h5⟩ := cacheSet_core hi2 hkc2 hd hm hk2 hpos kc1.slots s (Or.inl rfl) hs1 hb.slots hsm
+    exact ⟨(), w', h1, h2', kcN, h3, h4, by rw [h5, hm]⟩
+  | none =>
+    simp only [setCache, modify_run]
+    have hnot := (slotOf_none_iff m').1 hs
+    have hs1 : (kc1.slots ++ [m'])[kc1.slots.length]? = some m' := by simp
+    have hsN : (kc1.slots ++ [m']).Nodup := by
+      rw [List.nodup_append]
+      refine ⟨hb.slots, by simp, ?_⟩
+      intro a ha b hb'; simp at hb'; subst hb'; intro e'; subst e'; exact hnot ha
+    have hsm : kc1.slots.length ∈ Cache.keysOf kc1.pol.items ↔ m' ∈ kc1.ents.map (·.1) := by
+      constructor
+      · intro h; have := hb.valid _ h; omega
+      · intro h
+        obtain ⟨s', q1, _⟩ := (hb.keys m').1 h
+        exact absurd (List.mem_of_getElem? q1) hnot
+    obtain ⟨w', kcN, h1, h2', h3, h4, h5⟩ := cacheSet_core hi2 hkc2 hd hm hk2 hpos (kc1.slots ++ [m']) kc1.slots.length (Or.inr rfl) hs1 hsN hsm
+    simp only [hm] at h1
+    exact ⟨(), w', h1, h2', kcN, h3, h4, by rw [h5, hm]⟩
+
+theorem nodup_filterMap {α β : Type} (f : α → Option β) (hinj : ∀ a a' b, f a = some b → f a' = some b → a = a') :
+    ∀ l : List α, l.Nodup → (l.filterMap f).Nodup := by
+  intro l
+  induction l with
+  | nil => intro _; exact List.nodup_nil
+  | cons a t ih =>
+    intro hn
+    simp only [List.nodup_cons] at hn
+    simp only [List.filterMap_cons]
+    cases hf : f a with
+    | none => exact ih hn.2
+    | some b =>
+      simp only []
+      rw [List.nodup_cons]
+      refine ⟨?_, ih hn.2⟩
+      intro hm
+      obtain ⟨a', ha', hfa'⟩ := List.mem_filterMap.1 hm
+      have := hinj a a' b hf hfa'
+      exact hn.1 (this ▸ ha')
+
+/-- the keys of a bounded cache's entries are the slot-table images of the policy's keys. -/
+theorem BOK.keys_perm {kc : KeyCache} {keys : List KeyObj} (hok : CacheOK keys kc) (hb : BOK kc) :
+    (List.filterMap (fun s => kc.slots[s]?) (Cache.keysOf kc.pol.items)).Perm (kc.ents.map (·.1)) := by
+  rw [List.perm_ext_iff_of_nodup]
+  · intro m
+    rw [hb.keys m, List.mem_filterMap]
+    constructor
+    · rintro ⟨s, q1, q2⟩; exact ⟨s, q2, q1⟩
+    · rintro ⟨s, q1, q2⟩; exact ⟨s, q2, q1⟩
+  · apply nodup_filterMap _ _ _ hb.inv.itemsNodup
+    intro a a' b ha ha'
+    have l1 := getElem?_lt ha
+    have l2 := getElem?_lt ha'
+    rw [List.getElem?_eq_getElem l1] at ha
+    rw [List.getElem?_eq_getElem l2] at ha'
+    simp only [Option.some.injEq] at ha ha'
+    exact (List.getElem_inj hb.slots).1 (ha.trans ha'.symm)
+  · exact hok.nodup
+
+/-- a bounded key cache never holds more entries than its capacity. -/
+theorem BOK.ents_le_cap {kc : KeyCache} {keys : List KeyObj} (hok : CacheOK keys kc) (hb : BOK kc) :
+    kc.ents.length ≤ kc.pol.cap := by
+  have h1 := (hb.keys_perm hok).length_eq
+  have h2 : (List.filterMap (fun s => kc.slots[s]?) (Cache.keysOf kc.pol.items)).length ≤ (Cache.keysOf kc.pol.items).length :=
+    List.length_filterMap_le _ _
+  have h3 := hb.inv.size
+  simp only [List.length_map, Cache.keysOf] at h1 h2
+  omega
+
+/-- in a bounded cache the callbacks of `Close`, mapped through the slot table and the entries,
+are exactly the cached key objects. -/
+theorem close_victims_perm {kc : KeyCache} {keys : List KeyObj} (hok : CacheOK keys kc) (hb : BOK kc) :
+    (List.filterMap (fun em => Option.map (fun x => x.obj) (assocGet kc.ents em))
+      (List.filterMap (fun x => kc.slots[x.fst]?) (Cache.step kc.pol Cache.Op.close fun x => false).cbs)).Perm (objsOf kc) := by
+  have h1 := Cache.step_close_eff hb.inv hb.live (fun _ => false)
+  have e1 : List.filterMap (fun x => kc.slots[x.fst]?) (Cache.step kc.pol Cache.Op.close fun x => false).cbs =
+      List.filterMap (fun s => kc.slots[s]?) ((Cache.step kc.pol Cache.Op.close fun x => false).cbs.map (·.1)) := by
+    rw [List.filterMap_map]; rfl
+  rw [e1]
+  have h2 := h1.filterMap (fun s => kc.slots[s]?)
+  -- the metas of the policy's keys are exactly the keys of the entries
+  have hM : (List.filterMap (fun s => kc.slots[s]?) (Cache.keysOf kc.pol.items)).Perm (kc.ents.map (·.1)) := by
+    rw [List.perm_ext_iff_of_nodup]
+    · intro m
+      rw [hb.keys m, List.mem_filterMap]
+      constructor
+      · rintro ⟨s, q1, q2⟩; exact ⟨s, q2, q1⟩
+      · rintro ⟨s, q1, q2⟩; exact ⟨s, q2, q1⟩
+    · apply nodup_filterMap _ _ _ hb.inv.itemsNodup
+      intro a a' b ha ha'
+      have l1 := getElem?_lt ha
+      have l2 := getElem?_lt ha'
+      rw [List.getElem?_eq_getElem l1] at ha
+      rw [List.getElem?_eq_getElem l2] at ha'
+      simp only [Option.some.injEq] at ha ha'
+      exact (List.getElem_inj hb.slots).1 (ha.trans ha'.symm)
+    · exact hok.nodup
+  have h3 := (h2.trans hM).filterMap (fun em => Option.map (fun x => x.obj) (assocGet kc.ents em))
+  refine h3.trans ?_
+  have : List.filterMap (fun em => Option.map (fun x => x.obj) (assocGet kc.ents em)) (kc.ents.map (·.1)) = objsOf kc := by
+    unfold objsOf
+    rw [List.filterMap_map]
+    have hg : ∀ p, p ∈ kc.ents → assocGet kc.ents p.1 = some p.2 := fun p hp => assocGet_of_mem hok.nodup hp
+    generalize kc.ents = l at hg ⊢
+    have : ∀ l' : List (KeyMeta × CEntry), (∀ p, p ∈ l' → assocGet l p.1 = some p.2) →
+        List.filterMap ((fun em => Option.map (fun x => x.obj) (assocGet l em)) ∘ fun x => x.1) l' = l'.map fun p => p.2.obj := by
+      intro l'
+      induction l' with
+      | nil => intro _; rfl
+      | cons p t ih =>
+        intro h
+        simp only [List.filterMap_cons, Function.comp, h p List.mem_cons_self, Option.map_some, List.map_cons]
+        rw [← ih (fun q hq => h q (List.mem_cons_of_mem _ hq))]
+    exact this l hg
+  rw [this]
+
+
+
+/-! ### `write` -/
+
+/-- `c.keys.Set(id, e)` on an open `simple` or bounded cache: the entry is in afterwards; the cache
+gives up the reference of the entry it replaced (it stays with the caller, see `cacheWriteTail`),
+and releases the key of an entry it evicts. In terms of the held-reference function: as if `e` had
+simply replaced / been added to the entries. -/
+theorem cacheSet_eff {T : CTab} {raw : Raw} {h2 : Nat → Int} {w2 : World} {c : Nat} {m' : KeyMeta} {e : CEntry} {kc1 : KeyCache}
+    (hi2 : RIc T raw h2 w2) (hkc2 : w2.caches[c]? = some kc1) (hd : T.dead c = false) (hm : kc1.mode ≠ .never)
+    (hk2 : ∃ k, w2.keys[e.obj]? = some k ∧ k.created = m'.created) (hpos : assocGet kc1.ents m' = none → ∀ o, 0 ≤ h2 o) :
+    ∃ a w', cacheSet c m' e w2 = (.ok a, w') ∧
+      RIc T raw (fun o => h2 o + ((objsOf kc1).count o : Int) -
+        ((objsOf { kc1 with ents := assocSet kc1.ents m' e }).count o : Int)) w' ∧
+      ∃ kc', w'.caches[c]? = some kc' ∧ assocGet kc'.ents m' = some e ∧ kc'.mode = kc1.mode := by
+  cases hmode : kc1.mode with
+  | never => exact absurd hmode hm
+  | bounded =>
+    have := cacheSet_eff_bounded hi2 hkc2 hd hmode hk2 hpos
+    rw [hmode] at this; exact this
+  | simple =>
     have hgd2 : w2.caches.getD c default = kc1 := getD_eq_of_getElem? hkc2
     rw [cacheSet_run_simple w2 c m' e (by rw [hgd2, hmode]), hgd2]
     have hok1 := hi2.ents c kc1 hkc2 hd
-    refine ⟨(), _, rfl, hi2.updCache c kc1 { kc1 with ents := assocSet kc1.ents m' e } hkc2 hd rfl ?_ hh rfl rfl rfl,
-      { kc1 with ents := assocSet kc1.ents m' e }, ?_, assocGet_assocSet_self _ _ _⟩
-    · refine ⟨?_, assocSet_keys_nodup _ _ hok1.nodup, hok1.latest, fun hn => by rw [hmode] at hn; cases hn⟩
+    refine ⟨(), _, rfl, hi2.updCache c kc1 { kc1 with ents := assocSet kc1.ents m' e } hkc2 hd rfl ?_ (fun o => by simp only [objsOf]; omega) rfl rfl rfl,
+      { kc1 with ents := assocSet kc1.ents m' e }, ?_, assocGet_assocSet_self _ _ _, hmode⟩
+    · refine ⟨?_, assocSet_keys_nodup _ _ hok1.nodup, hok1.latest, fun hn => (by rw [hmode] at hn; cases hn),
+        fun hn => (by rw [hmode] at hn; cases hn)⟩
       intro m2 e2 hme
       rcases mem_assocSet hme with ⟨rfl, rfl⟩ | ⟨hme', _⟩
       · exact hk2
       · exact hok1.entKey m2 e2 hme'
     · show (setAt w2.caches c _)[c]? = _
       rw [setAt_getElem?]; simp [hkc2]
+
+def writeHolds (h : Nat → Int) (kc : KeyCache) (m' : KeyMeta) (e : CEntry) : Nat → Int :=
+  match assocGet kc.ents m' with
+  | some old => if old.obj = e.obj then h else hadd h e.obj (-1)
+  | none => hadd h e.obj (-1)
+
+theorem writeHolds_congr (h : Nat → Int) {kc kc' : KeyCache} (he : kc'.ents = kc.ents) (m' : KeyMeta) (e : CEntry) :
+    writeHolds h kc' m' e = writeHolds h kc m' e := by unfold writeHolds; rw [he]
+
+theorem cacheWriteTail_spec (T : CTab) (raw : Raw) (h : Nat → Int) (c : Nat) (m' : KeyMeta) (e : CEntry) (kc1 : KeyCache)
+    (hd : T.dead c = false) (hmode : kc1.mode ≠ .never) (hpos : ∀ o, 0 ≤ h o) :
+    Spec (fun w => RIc T raw h w ∧ w.caches[c]? = some kc1 ∧ ∃ k, w.keys[e.obj]? = some k ∧ k.created = m'.created)
+      (cacheWriteTail c m' e)
+      (fun _ w' => RIc T raw (writeHolds h kc1 m' e) w' ∧ ∃ kc', w'.caches[c]? = some kc' ∧ assocGet kc'.ents m' = some e)
+      (fun _ => False) := by
+  apply Spec.intro_ok
+  rintro w0 ⟨hi0, hkc0, k0, hk0, hkcr⟩
+  have hgd0 : w0.caches.getD c default = kc1 := getD_eq_of_getElem? hkc0
+  -- the peek `c.keys.Get(id)` (bounded: touches the policy's bookkeeping only)
+  obtain ⟨rg, w, kcg, hrg, hi, hkeys, hkc, hgents, hgmode, _, _⟩ := cacheGet_eff m' hi0 hkc0 hd
+  have hmodeg : kcg.mode ≠ .never := by rw [hgmode]; exact hmode
+  have hk : w.keys[e.obj]? = some k0 := by rw [hkeys]; exact hk0
+  -- the final `cacheSet`, from any world that still has `kcg` at `c`
+  have fin : ∀ (w2 : World) (h2 : Nat → Int), RIc T raw h2 w2 → w2.caches[c]? = some kcg → (assocGet kcg.ents m' = none → ∀ o, 0 ≤ h2 o) →
+      (∃ k, w2.keys[e.obj]? = some k ∧ k.created = m'.created) →
+      (∀ o, writeHolds h kc1 m' e o + ((objsOf { kcg with ents := assocSet kcg.ents m' e }).count o : Int) =
+        h2 o + ((objsOf kcg).count o : Int)) →
+      ∃ a w', cacheSet c m' e w2 = (.ok a, w') ∧
+        RIc T raw (writeHolds h kc1 m' e) w' ∧ ∃ kc', w'.caches[c]? = some kc' ∧ assocGet kc'.ents m' = some e := by
+    intro w2 h2 hi2 hkc2 hpos2 hk2 hh
+    obtain ⟨a, w', hr, hri, kc', h1, h2', _⟩ := cacheSet_eff hi2 hkc2 hd hmodeg hk2 hpos2
+    refine ⟨a, w', hr, RIc.congr_h hri (fun o => ?_), kc', h1, h2'⟩
+    have := hh o
+    omega
   unfold cacheWriteTail
-  simp only [bind_run, getCache, hgd, hmode, cacheGet_run w c m' hnb]
-  have hok := hi.ents c kc1 hkc hd
-  cases hex : assocGet kc1.ents m' with
+  simp only [bind_run, getCache, hgd0, hrg]
+  have hex : (match kc1.mode with | .never => none | _ => assocGet kc1.ents m') = assocGet kc1.ents m' := by
+    cases hm : kc1.mode <;> first | exact absurd hm hmode | rfl
+  have hok := hi.ents c kcg hkc hd
+  cases hexg : assocGet kc1.ents m' with
   | none =>
     simp only []
-    apply fin w h hi hkc ⟨k, hk, hkcr⟩
+    apply fin w h hi hkc (fun _ => hpos) ⟨k0, hk, hkcr⟩
     intro o
-    have := count_assocSet_of_none e CEntry.obj hex o
+    have := count_assocSet_of_none e CEntry.obj (hgents ▸ hexg) o
     unfold objsOf
-    simp only [writeHolds, hex, hadd]
+    simp only [writeHolds, hexg, hadd]
     rw [this]
     split <;> split <;> omega
   | some old =>
     simp only []
-    have hcount := fun o => count_assocSet_of_some e CEntry.obj hok.nodup hex o
+    have hexg' : assocGet kcg.ents m' = some old := hgents ▸ hexg
+    have hcount := fun o => count_assocSet_of_some e CEntry.obj hok.nodup hexg' o
     by_cases hsame : old.obj = e.obj
     · simp only [hsame, ne_eq, not_true_eq_false, ↓reduceIte, pure_run]
-      apply fin w h hi hkc ⟨k, hk, hkcr⟩
+      apply fin w h hi hkc (fun _ => hpos) ⟨k0, hk, hkcr⟩
       intro o
       have := hcount o
       unfold objsOf
-      simp only [writeHolds, hex, hsame, ↓reduceIte]
+      simp only [writeHolds, hexg, hsame, ↓reduceIte]
       simp only [hsame] at this
       omega
     · simp only [ne_eq, hsame, not_false_eq_true, ↓reduceIte]
       have hcnt : 1 ≤ cntOf T h w old.obj := by
         unfold cntOf
         have : 0 < entCount T.dead w.caches old.obj :=
-          entCount_pos_iff.2 ⟨c, kc1, hkc, hd, List.mem_map.2 ⟨(m', old), assocGet_mem hex, rfl⟩⟩
+          entCount_pos_iff.2 ⟨c, kcg, hkc, hd, List.mem_map.2 ⟨(m', old), assocGet_mem hexg', rfl⟩⟩
         have := hpos old.obj
         omega
       have hrel := keyRelease_specc T raw h old.obj w ⟨hi, hcnt⟩
@@ -184,16 +692,16 @@ theorem cacheWriteTail_spec (T : CTab) (raw : Raw) (h : Nat → Int) (c : Nat) (
         rw [hfr.1] at hrel
         simp only [bind_run, hr, hfr.1]
         obtain ⟨k2, hk2, hk2c, _⟩ := hext.keys _ _ hk
-        apply fin w2 _ hrel (by rw [hfr.2]; exact hkc) ⟨k2, hk2, hk2c.trans hkcr⟩
+        have hne : e.obj ≠ old.obj := fun e' => hsame e'.symm
+        apply fin w2 _ hrel (by rw [hfr.2]; exact hkc) (fun hn => by rw [hexg'] at hn; cases hn) ⟨k2, hk2, hk2c.trans hkcr⟩
         intro o
         have := hcount o
         unfold objsOf
-        simp only [writeHolds, hex, hsame, ↓reduceIte, hadd]
-        have hne : e.obj ≠ old.obj := fun e' => hsame e'.symm
+        simp only [writeHolds, hexg, hsame, ↓reduceIte, hadd]
         split at this <;> split at this <;> split <;> split <;> omega
 
 theorem cacheWrite_spec (T : CTab) (raw : Raw) (h : Nat → Int) (c : Nat) (m : KeyMeta) (e : CEntry) (kc : KeyCache) (k : KeyObj)
-    (hd : T.dead c = false) (hmode : kc.mode = .simple) (hpos : ∀ o, 0 ≤ h o)
+    (hd : T.dead c = false) (hmode : kc.mode ≠ .never) (hpos : ∀ o, 0 ≤ h o)
     (hcr : m.created ≠ 0 → k.created = m.created) :
     Spec (fun w => RIc T raw h w ∧ w.caches[c]? = some kc ∧ w.keys[e.obj]? = some k)
       (cacheWrite c m e)
@@ -215,7 +723,8 @@ theorem cacheWrite_spec (T : CTab) (raw : Raw) (h : Nat → Int) (c : Nat) (m : 
     let kc1 : KeyCache := { kc with latest := assocSet kc.latest m.kid (writeKey m k.created) }
     have hok := hi.ents c kc hkc hd
     have hi1 : RIc T raw h { w with caches := setAt w.caches c fun _ => kc1 } := by
-      refine hi.updCache c kc kc1 hkc hd rfl ⟨hok.entKey, hok.nodup, ?_, hok.nev⟩ (fun o => rfl) rfl rfl rfl
+      refine hi.updCache c kc kc1 hkc hd rfl ⟨hok.entKey, hok.nodup, ?_, hok.nev, fun hb =>
+        ⟨(hok.bnd hb).inv, (hok.bnd hb).live, (hok.bnd hb).noexp, (hok.bnd hb).slots, (hok.bnd hb).valid, (hok.bnd hb).keys⟩⟩ (fun o => rfl) rfl rfl rfl
       intro kid l hl
       rcases mem_assocSet hl with ⟨rfl, rfl⟩ | ⟨hl', _⟩
       · unfold writeKey; split <;> rfl
@@ -252,21 +761,20 @@ def LoaderOK (T : CTab) (loader : KeyMeta → M Nat) (m : KeyMeta) : Prop :=
     (RI T .none H)
 
 theorem RIc.cache_in_range {T : CTab} {raw : Raw} {h : Nat → Int} {w : World} (hi : RIc T raw h w) {c : Nat}
-    (hm : T.mode c = .simple) : ∃ kc, w.caches[c]? = some kc ∧ kc.mode = .simple := by
+    (hm : T.mode c ≠ .never) : ∃ kc, w.caches[c]? = some kc ∧ kc.mode ≠ .never := by
   have := hi.mode c
-  rw [hm] at this
   cases hc : w.caches[c]? with
   | none =>
     simp only [List.getD_eq_getElem?_getD, hc, Option.getD_none] at this
-    cases this
+    exact absurd this.symm hm
   | some kc =>
     simp only [List.getD_eq_getElem?_getD, hc, Option.getD_some] at this
-    exact ⟨kc, rfl, this⟩
+    exact ⟨kc, rfl, by rw [this]; exact hm⟩
 
 /-- wrap the freshly loaded raw key and put it into open cache `c`: the wrapper's first reference
 becomes the cache's; an entry it replaces is released. -/
 theorem wrapWrite_spec (T : CTab) (H : List Nat) (c : Nat) (m : KeyMeta) (k : Nat) (la : Int)
-    (hd : T.dead c = false) (hmode : T.mode c = .simple) :
+    (hd : T.dead c = false) (hmode : T.mode c ≠ .never) :
     Spec (fun w => RI T (.obj k) H w ∧ (m.created ≠ 0 → ∃ ko, w.keys[k]? = some ko ∧ ko.created = m.created))
       (keyWrap k >>= fun _ => cacheWrite c m { loadedAt := la, obj := k })
       (fun _ w => RI T .none H w ∧ 0 < entCount T.dead w.caches k) (fun _ => False) := by
@@ -310,21 +818,36 @@ theorem wrapWrite_spec (T : CTab) (H : List Nat) (c : Nat) (m : KeyMeta) (k : Na
         exact hi3
       · exact entCount_pos_iff.2 ⟨c, kc', hkc', hd, List.mem_map.2 ⟨(_, _), assocGet_mem hget, rfl⟩⟩
 
+theorem readKey_congr {kc kc' : KeyCache} (h : kc'.latest = kc.latest) (m : KeyMeta) : readKey kc' m = readKey kc m := by
+  unfold readKey getLatestMeta; rw [h]
+
+/-- `read` for every cache mode (see `cacheGet_eff`). -/
+theorem cacheRead_eff {T : CTab} {raw : Raw} {h : Nat → Int} {w : World} {c : Nat} {kc : KeyCache} (m : KeyMeta)
+    (hi : RIc T raw h w) (hkc : w.caches[c]? = some kc) (hd : T.dead c = false) :
+    ∃ r w' kc', cacheRead c m w = (.ok r, w') ∧ RIc T raw h w' ∧ w'.keys = w.keys ∧
+      w'.caches[c]? = some kc' ∧ kc'.ents = kc.ents ∧ kc'.mode = kc.mode ∧ kc'.latest = kc.latest ∧
+      (∀ e, r = some e → kc.mode ≠ .never ∧ assocGet kc.ents (readKey kc m) = some e) := by
+  have hgd : w.caches.getD c default = kc := getD_eq_of_getElem? hkc
+  simp only [cacheRead, bind_run, getCache, hgd]
+  exact cacheGet_eff (readKey kc m) hi hkc hd
+
 theorem cacheLoad_spec (T : CTab) (H : List Nat) (c : Nat) (m : KeyMeta) (loader : KeyMeta → M Nat)
-    (hd : T.dead c = false) (hmode : T.mode c = .simple) (hl : LoaderOK T loader m) :
+    (hd : T.dead c = false) (hmode : T.mode c ≠ .never) (hl : LoaderOK T loader m) :
     Spec (RI T .none H) (cacheLoad c m loader)
       (fun o w => RI T .none H w ∧ 0 < entCount T.dead w.caches o) (RI T .none H) := by
   unfold cacheLoad
   refine Spec.bind (hl H) (fun _ h => h) ?_
   intro k
   apply Spec.intro_ok
-  rintro w ⟨hi, hcr⟩
-  obtain ⟨kc, hkc, hkcm⟩ := RIc.cache_in_range hi hmode
-  have hgd : w.caches.getD c default = kc := getD_eq_of_getElem? hkc
-  have hnb : (w.caches.getD c default).mode ≠ .bounded := by rw [hgd, hkcm]; decide
+  rintro w0 ⟨hi0, hcr0⟩
+  obtain ⟨kc0, hkc0, hkcm0⟩ := RIc.cache_in_range hi0 hmode
+  obtain ⟨r, w, kc, hrd, hi, hkeys, hkc, hents, hkcmode, hlat, hrspec⟩ := cacheRead_eff m hi0 hkc0 hd
+  have hkcm : kc.mode ≠ .never := by rw [hkcmode]; exact hkcm0
+  have hcr : m.created ≠ 0 → ∃ k_1, w.keys[k]? = some k_1 ∧ k_1.created = m.created := by rw [hkeys]; exact hcr0
+  have hko : w0.keys.getD k default = w.keys.getD k default := by rw [hkeys]
   have hklt := hi.rawObj k rfl
   have hk : w.keys[k]? = some w.keys[k] := List.getElem?_eq_getElem hklt
-  simp only [bind_run, keyObj, cacheRead_run w c m hnb, hgd]
+  simp only [bind_run, keyObj, hrd, hko]
   have hok := hi.ents c kc hkc hd
   -- caching the freshly loaded key
   have newBranch : ∃ a w', (do
@@ -347,14 +870,14 @@ theorem cacheLoad_spec (T : CTab) (H : List Nat) (c : Nat) (m : KeyMeta) (loader
           cases r2 with
           | error e => exact hsp.elim
           | ok u2 => exact ⟨k, w2, rfl, hsp⟩
-  cases hl : lookup kc (readKey kc m) with
+  cases r with
   | none => exact newBranch
   | some e =>
     simp only [bind_run, keyObj]
     split
     · -- the entry already holds this key: refresh it, close the redundant copy
       have hla : assocGet kc.ents (readKey kc m) = some e := by
-        unfold lookup at hl; rw [hkcm] at hl; exact hl
+        rw [hents, readKey_congr hlat]; exact (hrspec e rfl).2
       obtain ⟨ke, hke, _⟩ := hok.entKey _ _ (assocGet_mem hla)
       have hne : e.obj ≠ k := by
         intro heq
@@ -416,6 +939,7 @@ theorem cacheLoad_spec (T : CTab) (H : List Nat) (c : Nat) (m : KeyMeta) (loader
             · exact entCount_pos_iff.2 ⟨c, kc', hkc', hd, List.mem_map.2 ⟨(_, _), assocGet_mem hget, rfl⟩⟩
     · exact newBranch
 
+
 theorem Spec.pure_pre {α : Type} {P : World → Prop} {φ : Prop} {x : M α} {Q : α → World → Prop} {E : World → Prop}
     (h : φ → Spec P x Q E) : Spec (fun w => P w ∧ φ) x Q E := fun w hw => h hw.2 w hw.1
 
@@ -430,24 +954,26 @@ theorem getFresh_spec (T : CTab) (raw : Raw) (H : List Nat) (c : Nat) (m : KeyMe
       (fun r w => RI T raw H w ∧ ∀ o, r.1 = some o → 0 < entCount T.dead w.caches o) (fun _ => False) := by
   apply Spec.intro_ok
   intro w hi
-  have hnb : (w.caches.getD c default).mode ≠ .bounded := by rw [hi.mode c]; exact hi.nb c
-  obtain ⟨r, hr, hob⟩ := getFresh_run w c m i hnb
-  refine ⟨r, w, hr, hi, ?_⟩
-  intro o ho
-  obtain ⟨e, hl, he⟩ := hob o r.2 (by cases r; simp_all)
-  unfold lookup at hl
   cases hc : w.caches[c]? with
   | none =>
-    simp only [List.getD_eq_getElem?_getD, hc, Option.getD_none] at hl
-    cases hl
+    -- no such cache: `getCache` yields the default (never) cache
+    have hgd : w.caches.getD c default = default := by simp [List.getD_eq_getElem?_getD, hc]
+    have : cacheRead c m w = (.ok none, w) := by
+      simp only [cacheRead, bind_run, getCache, cacheGet, hgd]; rfl
+    simp only [getFresh, bind_run, this]
+    exact ⟨_, w, rfl, hi, fun o ho => by cases ho⟩
   | some kc =>
-    simp only [List.getD_eq_getElem?_getD, hc, Option.getD_some] at hl
-    have hla : assocGet kc.ents (readKey kc m) = some e := by
-      cases hm : kc.mode <;> simp only [hm] at hl
-      · cases hl
-      · exact hl
-      · exact hl
-    exact entCount_pos_iff.2 ⟨c, kc, hc, hd, List.mem_map.2 ⟨(_, e), assocGet_mem hla, he⟩⟩
+    obtain ⟨r, w', kc', hrd, hi', hkeys, hkc', hents, _, _, hr⟩ := cacheRead_eff m hi hc hd
+    simp only [getFresh, bind_run, hrd]
+    cases r with
+    | none => exact ⟨_, w', rfl, hi', fun o ho => by cases ho⟩
+    | some e =>
+      have hpos : 0 < entCount T.dead w'.caches e.obj :=
+        entCount_pos_iff.2 ⟨c, kc', hkc', hd, List.mem_map.2 ⟨(_, e), assocGet_mem (hents ▸ (hr e rfl).2), rfl⟩⟩
+      simp only [bind_run, keyObj, get_run]
+      split
+      · exact ⟨_, w', rfl, hi', fun o ho => by cases ho; exact hpos⟩
+      · exact ⟨_, w', rfl, hi', fun o ho => by cases ho; exact hpos⟩
 
 theorem LoaderOK.plain {T : CTab} {loader : KeyMeta → M Nat} {m : KeyMeta} (hl : LoaderOK T loader m) (H : List Nat) :
     Spec (RI T .none H) (loader m) (fun o => RI T (.obj o) H) (RI T .none H) :=
@@ -470,8 +996,6 @@ failure nothing is held. -/
 theorem getOrLoad_spec (T : CTab) (H : List Nat) (c : Nat) (m : KeyMeta) (i : Int) (loader : KeyMeta → M Nat)
     (hd : T.dead c = false) (hl : LoaderOK T loader m) :
     Spec (RI T .none H) (getOrLoad c m i loader) (fun o => RI T .none (o :: H)) (RI T .none H) := by
-  refine Spec.with_pre fun ⟨w0, hw0⟩ => ?_
-  have hnbT := hw0.nb c
   unfold getOrLoad
   refine Spec.bind (getCache_mode_spec T .none H c) (fun _ h => h.elim) ?_
   intro kc
@@ -482,12 +1006,9 @@ theorem getOrLoad_spec (T : CTab) (H : List Nat) (c : Nat) (m : KeyMeta) (i : In
     refine Spec.bind (hl.plain H) (fun _ h => h) fun k => ?_
     exact Spec.bind (keyWrap_plain T H k) (fun _ h => h.elim) fun _ => Spec.pure _ fun _ h => h
   · rename_i hnever
-    have hsimple : T.mode c = .simple := by
+    have hsimple : T.mode c ≠ .never := by
       rw [hmode] at hnever
-      cases hm : T.mode c with
-      | never => exact absurd hm hnever
-      | simple => rfl
-      | bounded => exact absurd hm hnbT
+      intro hm; exact hnever hm
     have slow : Spec (RI T .none H) (cacheLoad c m loader >>= fun k => keyIncr k >>= fun _ => (pure k : M Nat))
         (fun o => RI T .none (o :: H)) (RI T .none H) :=
       Spec.bind (cacheLoad_spec T H c m loader hd hsimple hl) (fun _ h => h) (tracked_spec T H)
@@ -501,7 +1022,7 @@ theorem getOrLoad_spec (T : CTab) (H : List Nat) (c : Nat) (m : KeyMeta) (i : In
 
 /-- the part of `GetOrLoadLatest` after the cache lookup / load: validity check and reload. -/
 theorem getOrLoadLatest_rest (T : CTab) (H : List Nat) (c : Nat) (kid : KeyId) (ea : Int) (loader : KeyMeta → M Nat)
-    (hd : T.dead c = false) (hsimple : T.mode c = .simple) (hl : LoaderOK T loader ⟨kid, 0⟩) (key : Nat) :
+    (hd : T.dead c = false) (hsimple : T.mode c ≠ .never) (hl : LoaderOK T loader ⟨kid, 0⟩) (key : Nat) :
     Spec (fun w => RI T .none H w ∧ 0 < entCount T.dead w.caches key)
       (do
         let ko ← keyObj key
@@ -565,8 +1086,6 @@ theorem getOrLoadLatest_rest (T : CTab) (H : List Nat) (c : Nat) (kid : KeyId) (
 theorem getOrLoadLatest_spec (T : CTab) (H : List Nat) (c : Nat) (kid : KeyId) (i ea : Int) (loader : KeyMeta → M Nat)
     (hd : T.dead c = false) (hl : LoaderOK T loader ⟨kid, 0⟩) :
     Spec (RI T .none H) (getOrLoadLatest c kid i ea loader) (fun o => RI T .none (o :: H)) (RI T .none H) := by
-  refine Spec.with_pre fun ⟨w0, hw0⟩ => ?_
-  have hnbT := hw0.nb c
   unfold getOrLoadLatest
   refine Spec.bind (getCache_mode_spec T .none H c) (fun _ h => h.elim) ?_
   intro kc
@@ -576,12 +1095,9 @@ theorem getOrLoadLatest_spec (T : CTab) (H : List Nat) (c : Nat) (kid : KeyId) (
   · refine Spec.bind (hl.plain H) (fun _ h => h) fun k => ?_
     exact Spec.bind (keyWrap_plain T H k) (fun _ h => h.elim) fun _ => Spec.pure _ fun _ h => h
   · rename_i hnever
-    have hsimple : T.mode c = .simple := by
+    have hsimple : T.mode c ≠ .never := by
       rw [hmode] at hnever
-      cases hm : T.mode c with
-      | never => exact absurd hm hnever
-      | simple => rfl
-      | bounded => exact absurd hm hnbT
+      intro hm; exact hnever hm
     refine Spec.bind (getFresh_spec T .none H c _ i hd) (fun _ h => h.elim) fun r => ?_
     split
     · dsimp only
@@ -591,6 +1107,7 @@ theorem getOrLoadLatest_spec (T : CTab) (H : List Nat) (c : Nat) (kid : KeyId) (
       exact Spec.bind (R := fun key w => RI T .none H w ∧ 0 < entCount T.dead w.caches key) (E₁ := RI T .none H)
         ((cacheLoad_spec T H c _ loader hd hsimple hl).weaken (fun _ h => h.1) (fun _ _ h => h) (fun _ h => h)) (fun _ h => h)
         (getOrLoadLatest_rest T H c kid ea loader hd hsimple hl)
+
 
 /-! ### closing a cache -/
 
@@ -608,13 +1125,41 @@ def CTab.kill (T : CTab) (c : Nat) : CTab := { T with dead := fun j => j == c ||
 theorem hcount_append (l H : List Nat) (o : Nat) : hcount (l ++ H) o = hcount H o + ((l.count o : Nat) : Int) := by
   unfold hcount; rw [List.count_append]; omega
 
+/-- replacing the contents of a cache that is already dead. -/
+theorem RIc.updDead {T : CTab} {raw : Raw} {h : Nat → Int} {w : World} (hi : RIc T raw h w)
+    (c : Nat) (kc kc' : KeyCache) (hkc : w.caches[c]? = some kc) (hd : T.dead c = true) (hmode : kc'.mode = kc.mode) :
+    RIc T raw h { w with caches := setAt w.caches c fun _ => kc' } := by
+  have hcnt : ∀ o, cntOf T h { w with caches := setAt w.caches c fun _ => kc' } o = cntOf T h w o := by
+    intro o; unfold cntOf
+    show ((entCount T.dead (setAt w.caches c fun _ => kc') o : Nat) : Int) + h o = _
+    rw [entCount_setAt_dead _ _ _ hd]
+  refine ⟨hi.len, hi.rawSec, hi.rawObj, hi.sec, hi.led, ?_, hi.hval, ?_, ?_, ?_⟩
+  · intro o k hk; rw [hcnt]; exact hi.acc o k hk
+  · intro c' kc0 hc' hd'
+    have hc'' : (setAt w.caches c fun _ => kc')[c']? = some kc0 := hc'
+    rw [setAt_getElem?] at hc''
+    by_cases e : c' = c
+    · subst e; rw [hd] at hd'; cases hd'
+    · simp only [e, if_false] at hc''; exact hi.ents c' kc0 hc'' hd'
+  · intro c'
+    rw [← hi.mode c']
+    show ((setAt w.caches c fun _ => kc').getD c' default).mode = _
+    by_cases hlt : c' < w.caches.length
+    · rw [setAt_getD _ _ _ _ _ hlt]
+      by_cases e : c' = c
+      · subst e; simp only [if_true, hmode, getD_eq_of_getElem? hkc]
+      · simp only [e, if_false]
+    · simp only [List.getD_eq_getElem?_getD]
+      rw [List.getElem?_eq_none (by rw [setAt_length]; omega), List.getElem?_eq_none (by omega)]
+  · show (setAt w.caches c fun _ => kc').length = T.n
+    rw [setAt_length]; exact hi.clen
+
 /-- `keyCache.Close` / `neverCache.Close` of an open cache: every entry's reference is released
 (closing the keys nobody else holds), and the cache is dead from then on. -/
 theorem cacheClose_spec (T : CTab) (H : List Nat) (c : Nat) (hd : T.dead c = false) :
     Spec (RI T .none H) (cacheClose c) (fun _ => RI (T.kill c) .none H) (fun _ => False) := by
   unfold cacheClose
   intro w hi
-  have hnb := hi.nb c
   have hmode := hi.mode c
   simp only [bind_run, getCache]
   cases hc : w.caches[c]? with
@@ -645,6 +1190,22 @@ theorem cacheClose_spec (T : CTab) (H : List Nat) (c : Nat) (hd : T.dead c = fal
     | simple =>
       simp only []
       exact releaseAll_spec (T.kill c) .none H (objsOf kc) w hk'
-    | bounded => rw [hm] at hmode; exact absurd hmode.symm hnb
+    | bounded =>
+      simp only [setCache, bind_run, modify_run]
+      have hok := hi.ents c kc hc hd
+      have hperm := close_victims_perm hok (hok.bnd hm)
+      let kc' : KeyCache := { kc with pol := (Cache.step kc.pol Cache.Op.close fun _ => false).cache, ents := [] }
+      have hdead : (T.kill c).dead c = true := by simp [CTab.kill]
+      have h1 := RIc.updDead hk c kc kc' hc hdead rfl
+      have h1' : RI (T.kill c) .none
+          (List.filterMap (fun em => Option.map (fun x => x.obj) (assocGet kc.ents em))
+            (List.filterMap (fun x => kc.slots[x.fst]?) (Cache.step kc.pol Cache.Op.close fun x => false).cbs) ++ H)
+          { w with caches := setAt w.caches c fun _ => kc' } := by
+        refine RIc.congr_h h1 ?_
+        intro o; rw [hcount_append, hperm.count_eq o]
+      have := releaseAll_spec (T.kill c) .none H _ _ h1'
+      simp only [hm, kc'] at this ⊢
+      exact this
+
 
 end AsherahVerif.Env
